@@ -259,7 +259,7 @@ def oracle(sc):
 # ----------------------------------------------------------------------------
 # generators
 
-TEXTS = [None, None, "", "a", "b", "ab", " ", "x y", "\n", "1"]
+TEXTS = [None, None, "", "a", "b", "ab", " ", "x y", "\n", "1", "\ufb01x", "\U0001F600", "\uff21 b"]   # incl. characters ABOVE the placeholder range
 ATTRS = [[], [], [], [["k", "1"]], [["k", "2"]], [["k", "1"], ["j", "2"]], [["j", "2"], ["k", "1"]], [["id", ""]]]
 
 
